@@ -104,6 +104,11 @@ def units(tier, seed):
         for mx in (False, True):
             kk += 1
             descs.append(dict(engines=list(eng), gens=3, box=("B_asym", "B_dec")[kk % 2], obj="infhole", maximize=mx, Mh=4, seed=s + kk % 3, sprout={"kind": ("simple", "nbc")[kk % 2], "L": 2}))
+    # one problem object shared by all levels (the usual way of using pyhms), and a box with bounds that are exactly 0
+    for k, eng in enumerate(shapes_h2() + shapes_h3_cover()[::4]):
+        for box in ("B_zero", "B_asym", "B_sym"):
+            descs.append(dict(engines=list(eng), gens=1 + k % 2, box=box, obj=("lin_corner", "sphere_in", "twofunnel")[k % 3], maximize=bool(k % 2), Mh=3, seed=s, shared_problem=True,
+                              sprout={"kind": ("simple", "nbc")[k % 2], "L": 2}, request_probe=False))
     for k, eng in enumerate(shapes_h3_cover() if tier == "quick" else []):
         descs.append(dict(engines=list(eng), gens=1 + k % 2, box=("B_asym", "B_dec", "B_3d")[k % 3], obj=("lin_corner", "sphere_in")[k % 2], maximize=bool(k % 2), Mh=4, seed=s,
                           sprout={"kind": ("simple", "nbc", "nbclocal")[k % 3] if eng[2] == "LOC" else ("simple", "nbc")[k % 2], "L": 2}, hib=bool(k % 4 == 1)))
